@@ -49,14 +49,26 @@ def tool_create(desc) -> bytes:
     return InputOutputMixin.prepare_suit_data(copy.deepcopy(desc))
 
 
-def dump_desc(desc, path, fmt):
+JSON_STYLES = [{}, {"indent": 2}, {"indent": "\t", "separators": (",", ": ")}, {"separators": (",", ":")}]
+YAML_STYLES = [{}, {"default_flow_style": True}, {"line_break": "\r\n"}, {"explicit_start": True, "explicit_end": True, "width": 40}, {"indent": 6, "width": 100000}]
+
+
+def dump_desc(desc, path, fmt, style=None):
+    """one of several equivalent renderings of the same description (layout, line ends, flow / block style), chosen by
+    the content hash unless `style` is given: the text a formatter, an editor on another platform or a generator writes"""
+    if style is None:
+        style = core.h8("text-style", json.dumps(desc, sort_keys=True, default=str)[:4000])
     if fmt == "json":
-        with open(path, "w", encoding="utf-8") as fh:
-            json.dump(desc, fh)
+        text = json.dumps(desc, **JSON_STYLES[style % len(JSON_STYLES)])
+        if style % 5 == 2:
+            text = text.replace("\n", "\r\n") + "\r\n"
+        with open(path, "w", encoding="utf-8", newline="") as fh:
+            fh.write(text)
     else:
         import yaml
-        with open(path, "w", encoding="utf-8") as fh:
-            yaml.safe_dump(desc, fh, sort_keys=False)      # escapes (allow_unicode would write NEL / LS / PS raw, which YAML folds)
+        with open(path, "w", encoding="utf-8", newline="") as fh:
+            # escapes (allow_unicode would write NEL / LS / PS raw, which YAML folds)
+            yaml.safe_dump(desc, fh, sort_keys=False, **YAML_STYLES[style % len(YAML_STYLES)])
 
 
 # file names a project may well use: characters that mean something to a shell, to glob, to argparse, to a URL or suffix parser
